@@ -134,6 +134,9 @@ func VerifYield() {
 // VerifSymbolic reports whether the code runs inside the symbolic executor.
 func VerifSymbolic() bool { return false }
 
+// VerifStepBound: executor-only progress bound (native replay relies on its 60 s hang timeout).
+func VerifStepBound(n int) {}
+
 var verifAllocBase uint64
 
 // VerifAllocReset/VerifAllocMax: allocation monitor. Executor: largest single allocation in bytes
